@@ -333,11 +333,55 @@ static std::vector<Op> within_polyphony(const std::vector<Op> &in, size_t limit)
 }
 namespace vf { void showValue(const Op &p, std::ostream &os) { os << kOpName[p.kind] << "(" << p.a << "," << p.b << "," << p.c << ")"; } }
 
+// ---------------------------------------------------------------- vibrato (modulation wheel): the offset it adds to p stays within wheel x depth,
+// touches only its own MIDI channel, and disappears when the wheel returns to 0
+struct Vib { int family = 0, offset = 0, keyA = 60, keyB = 64, wheel = 127, bend = 8192; std::vector<int> steps; };
+static std::string ser_vib(const Vib &v) { std::ostringstream o; o << "vib " << v.family << " " << v.offset << " " << v.keyA << " " << v.keyB << " " << v.wheel << " " << v.bend << " " << v.steps.size(); for(int x : v.steps) o << " " << x; o << "\n"; return o.str(); }
+static Vib deser_vib(const std::string &s) { Vib v; std::istringstream in(s); std::string w; size_t n = 0; in >> w >> v.family >> v.offset >> v.keyA >> v.keyB >> v.wheel >> v.bend >> n; for(size_t i = 0; i < n; i++) { int x; in >> x; v.steps.push_back(x); } return v; }
+static size_t chip_channel_of(const Inst &I, unsigned midch, unsigned key) {
+    Snapshot sn = take_snapshot(I);
+    for(size_t c = 0; c < sn.users.size(); c++) for(const SnapUser &u : sn.users[c]) if(u.midch == midch && u.note == key) return c;
+    return (size_t)-1;
+}
+static unsigned run_vibrato(const Vib &v) {
+    Rig R; R.start(v.family); R.set_melodic(0, v.offset);
+    OPN2_MIDIPlayer *d = R.I.dev; unsigned off_centre = 0;
+    R.bend_range(0, 2, 0); R.bend_range(1, 2, 0);
+    opn2_rt_pitchBend(d, 0, (OPN2_UInt16)v.bend); opn2_rt_pitchBend(d, 1, (OPN2_UInt16)v.bend);
+    VCHECK(opn2_rt_noteOn(d, 0, (OPN2_UInt8)v.keyA, 100) == 1 && opn2_rt_noteOn(d, 1, (OPN2_UInt8)v.keyB, 100) == 1, "note rejected");
+    size_t ca = chip_channel_of(R.I, 0, (unsigned)v.keyA), cb = chip_channel_of(R.I, 1, (unsigned)v.keyB);
+    VCHECK(ca != (size_t)-1 && cb != (size_t)-1 && ca != cb, "notes not placed");
+    double bendsemi = (v.bend - 8192) * 2.0 / 8192.0, pa = v.keyA + v.offset + bendsemi, pb = v.keyB + v.offset + bendsemi;
+    if(expect_hz(pa + 1) >= 6600 || expect_hz(pb + 1) >= 6600 || expect_hz(pa - 1) < 8 || expect_hz(pb - 1) < 8) return 0; // outside the native range
+    opn2_rt_controllerChange(d, 0, 1, (OPN2_UInt8)v.wheel);   // the wheel of channel 0 only
+    double depth = std::fabs(R.I.play()->m_midiChannels[0].vibdepth) * v.wheel; // semitones: wheel value x the channel's vibrato depth
+    VCHECK(depth <= 1.0, "default vibrato depth of %.3f semitones at wheel %d", depth, v.wheel);
+    std::vector<short> buf;
+    auto held = [&](size_t c) { fshadow_absorb(); std::vector<Pitch> w = written_or_held(tap().log.size(), c, v.family); VCHECK(!w.empty(), "no frequency held for chip channel %zu", c); return w.back(); };
+    for(size_t i = 0; i < v.steps.size(); i++) {
+        int n = v.steps[i] * 8; buf.resize((size_t)n * 2); opn2_generate(d, n * 2, buf.data());
+        Pitch a = held(ca), b = held(cb);
+        VCHECK(a.hz >= expect_hz(pa - depth) - a.step && a.hz <= expect_hz(pa + depth) + a.step, "step %zu: with the wheel at %d the note sounds at %.3f Hz, outside %.3f..%.3f Hz (key + offset + bend +- %.3f semitones of vibrato)", i, v.wheel, a.hz, expect_hz(pa - depth), expect_hz(pa + depth), depth);
+        VCHECK(b.hz >= expect_hz(pb) - b.step && b.hz <= expect_hz(pb) + b.step, "step %zu: the note of the channel whose wheel is at 0 sounds at %.3f Hz instead of %.3f Hz", i, b.hz, expect_hz(pb));
+        if(!(a.hz >= expect_hz(pa) - a.step && a.hz <= expect_hz(pa) + a.step)) off_centre++;
+    }
+    // wheel back to 0: the next re-pitch (a pitch-bend message re-pitches every key-down note of its channel) carries no vibrato offset any more
+    // (the statement speaks about what is written when a note is re-pitched; it does not demand a re-pitch at the moment the wheel moves)
+    opn2_rt_controllerChange(d, 0, 1, 0);
+    buf.resize(1024); opn2_generate(d, 512, buf.data());
+    opn2_rt_pitchBend(d, 0, (OPN2_UInt16)(v.bend == 8192 ? 8193 : v.bend - 1)); opn2_rt_pitchBend(d, 0, (OPN2_UInt16)v.bend);
+    opn2_generate(d, 512, buf.data());
+    Pitch a = held(ca);
+    VCHECK(a.hz >= expect_hz(pa) - a.step && a.hz <= expect_hz(pa) + a.step, "after the wheel returned to 0 the note sounds at %.3f Hz instead of %.3f Hz", a.hz, expect_hz(pa));
+    return off_centre;
+}
+
 int main(int argc, char **argv) {
     parse_args(argc, argv);
     Ctx &c = ctx();
     if(c.mode == "replay") return replay_main([&](const std::string &s) {
         if(s.rfind("scn", 0) == 0) { SInfo si; run_scenario(deser(s), si); }
+        else if(s.rfind("vib", 0) == 0) run_vibrato(deser_vib(s));
         else { Acc acc; long sh = 0, shs = 1; char g[16] = "quick"; sscanf(s.c_str(), "grid %15s %ld %ld", g, &sh, &shs); run_grid(std::string(g) == "full", sh, shs, acc); }
     });
     if(c.mode == "grid") {
@@ -349,6 +393,12 @@ int main(int argc, char **argv) {
         st.notes.push_back("integer-key sub-grid (all 128 keys x 10 offsets x 2 families x melodic/percussion, no bend) is enumerated completely");
         return finish();
     }
+    pbt("c10_vibrato", c.n / 4 + 1, 60, []() {
+        Vib v; v.family = *rng<int>(0, 1); v.offset = *rc::gen::element(0, 0, -12, 7); v.keyA = *rng<int>(30, 90); v.keyB = *rng<int>(30, 90); v.wheel = *rc::gen::weightedOneOf<int>({{2, rc::gen::just(127)}, {2, rng<int>(1, 127)}});
+        v.bend = *rc::gen::element(8192, 8192, 0, 12000); v.steps = *rc::gen::container<std::vector<int>>(rc::gen::element(3, 7, 11, 20, 40, 64));
+        std::string t = ser_vib(v);
+        run_case(t, [&] { unsigned dev = run_vibrato(v); ctx().stats.note_case(t, dev > 0); ctx().stats.label("vibrato_steps_judged", (uint64_t)v.steps.size()); ctx().stats.label("vibrato_steps_off_centre", dev); });
+    });
     pbt("c10_bend_fanout", c.n, 60, []() {
         Scn s; s.kind = 0; s.family = *rng<int>(0, 1); s.msb = *rc::gen::element(0, 1, 2, 12, 24); s.offset = *rc::gen::element(0, 0, -12, 5, 24); s.ops = within_polyphony(*genScnOps(0), 11);
         std::string t = ser(s);
